@@ -11,6 +11,7 @@ import (
 	"regexp"
 	"strconv"
 	"strings"
+	"sync"
 	"time"
 
 	"github.com/theparanoids/ysshra/csr"
@@ -24,14 +25,33 @@ type input struct {
 	LogName string   `json:"logname"`
 	Conn    string   `json:"ssh_connection"`
 	Argv    []string `json:"argv"`
+	// Other holds further variables of the environment sshd hands over (USER, HOME, SHELL, ...): none of them is the login name
+	Other map[string]string `json:"other_environment,omitempty"`
 }
+
+// dictated: transaction ids that client messages of this run offered.
+var dictated sync.Map
 
 var transRE = regexp.MustCompile(`^[0-9a-f]{10}$`)
 var verRE = regexp.MustCompile(`^[0-9]+\.[0-9]+$`)
 
 func genCmd(c *ev.Case) (string, string) {
 	r := c.Rand
-	switch r.Intn(16) {
+	switch r.Intn(17) {
+	case 15:
+		// the client offers a transaction id of its own, wherever a client can put one: ids come from the server
+		id := []string{"0123456789", "deadbeef00", "ffffffffff", "aaaaaaaaaa"}[r.Intn(4)]
+		dictated.Store(id, true)
+		switch r.Intn(4) {
+		case 0:
+			return fmt.Sprintf(`{"username":"u","hostname":"h","sshClientVersion":"8.1","ifVer":7,"exts":{"transID":%q}}`, id), "json-transid"
+		case 1:
+			return fmt.Sprintf(`{"username":"u","hostname":"h","sshClientVersion":"8.1","ifVer":7,"transID":%q,"exts":{"TRANSID":%q,"transid":%q}}`, id, id, id), "json-transid"
+		case 2:
+			return fmt.Sprintf("IFVer=6 SSHClientVersion=8.1 req=u@h transID=%s", id), "legacy-transid"
+		default:
+			return fmt.Sprintf("IFVer=6 SSHClientVersion=8.1 req=u@h TransID=%s transid=%s TRANSID=%s", id, id, id), "legacy-transid"
+		}
 	case 14:
 		// only the ASCII space separates legacy tokens: a tab, line feed, NBSP or em space inside a value is part of it
 		odd := []string{"\t", "\n", "\u00a0", "\u2003", "\r", "\v", "\u2028"}[r.Intn(7)]
@@ -193,6 +213,12 @@ func main() {
 				in.Argv = []string{"gensign", "-c", "/usr/bin/gensign " + []string{"NONS", "NSOK"}[c.Rand.Intn(2)] + " Regular"}
 			}
 			env := map[string]string{"SSH_ORIGINAL_COMMAND": in.Cmd, "LOGNAME": in.LogName, "SSH_CONNECTION": in.Conn}
+			if c.Rand.Intn(2) == 0 {
+				in.Other = map[string]string{"USER": []string{"root", "alice", "nobody", gen.NonEmptyStr(c.Rand, 8)}[c.Rand.Intn(4)], "HOME": "/home/x", "SHELL": "/bin/sh", "SSH_CLIENT": "203.0.113.9 4444 22", "LOGNAME_": "root", "SUDO_USER": "root"}
+				for k, v := range in.Other {
+					env[k] = v
+				}
+			}
 			r.Eval(1)
 			evalOnce := func() string {
 				q, e := csr.NewReqParam(func(k string) string { return env[k] }, func() []string { return in.Argv })
@@ -247,6 +273,9 @@ func main() {
 			}
 			if !transRE.MatchString(p.TransID) {
 				bad("transid-format", fmt.Sprintf("TransID=%q", p.TransID))
+			}
+			if _, isClients := dictated.Load(p.TransID); isClients {
+				bad("transid-dictated-by-client", fmt.Sprintf("TransID=%q is a value the client's message carried", p.TransID))
 			}
 			user, host, ver, isJSON, ok := msgref.Declared(in.Cmd)
 			if !ok {
